@@ -356,6 +356,10 @@ def _opsite(ref, op):
     return op[0]
 
 
+def _opsite_safe(kind, op):
+    return _JOIN.get(kind, kind) if (len(op) > 1 and "j" in op[1:]) else op[0]
+
+
 def _work(item):
     kind, depth = item
     from .. import bind_repo
@@ -371,7 +375,10 @@ def _work(item):
         for h in frontier:
             for op in OPS:
                 hist = h + (op,)
-                v, key = run(kind, hist)
+                try:
+                    v, key = run(kind, hist)
+                except Exception as e:   # noqa: something the bookkeeping cannot digest (never on the unchanged tree): a violation
+                    v, key = ("unexpected-behaviour", _opsite_safe(kind, op), dict(op=op, error="%s: %s" % (type(e).__name__, str(e)[:160]))), None
                 if v == "n/a":
                     continue
                 runs += 1
